@@ -42,6 +42,7 @@ CONSTANTS DevTarballSkipped,      \* D11: agent input stager drops TARBALL befor
           DevDirTestInCwd,        \* agent input: "target is an existing folder" tested in the working directory
           DevSlashDropped,        \* complete_url loses the trailing slash of a directory target
           DevLinkNoDirTarget,     \* os.link(src, "dir/") is an error: LINK cannot take a directory target
+          DevClientIsCwd,         \* client side paths resolved against the process cwd, not the session's client sandbox
           Scope,                  \* "single" | "pairs" | "hostile" | "dev" | "all" | "given" (trace monitor)
           Emit                    \* print every case (the rig's enumerator)
 
@@ -296,7 +297,15 @@ Outcomes == {[oc |-> "DONE", soe |-> FALSE], [oc |-> "FAILED", soe |-> FALSE],
 Outcomes2 == {[oc |-> "DONE", soe |-> FALSE], [oc |-> "FAILED", soe |-> FALSE],
               [oc |-> "FAILED", soe |-> TRUE], [oc |-> "CANCELED", soe |-> FALSE]}
 
-Case(di, do, x) == [din |-> di, dout |-> do, oc |-> x.oc, soe |-> x.soe]
+\* cs: the session's client sandbox (session config client_sandbox,
+\* Session._get_client_sandbox, handed to the stagers as task.client_sandbox by
+\* TMGRSchedulingComponent._assign_pilot) and the working directory of the
+\* client process.  "differs": two directories, the working directory holds
+\* decoy files named like the client sandbox' files (location "cwd");
+\* "same": the default (no client_sandbox configured), one directory.
+\* client:// and the relative client side paths ALWAYS denote the session's
+\* client sandbox (location "client").
+Case(di, do, x) == [din |-> di, dout |-> do, oc |-> x.oc, soe |-> x.soe, cs |-> "differs"]
 Ok1 == [oc |-> "DONE", soe |-> FALSE]
 
 \* directory targets (trailing slash), both directions, client side TRANSFER
@@ -317,6 +326,17 @@ SingleCases ==
   \cup {Case(<<>>, <<d>>, x) : d \in {e \in OutSingles : e.form = "dict" /\ e.tp # "t/b"}, x \in Outcomes}
   \cup {Case(<<>>, <<d>>, x) : d \in {e \in OutSingles : e.form # "dict" \/ e.tp = "t/b"}, x \in Outcomes2}
   \cup {Case(<<>>, <<>>, x) : x \in Outcomes}
+
+\* client side directives naming the client sandbox, run with cs = "same" as well
+SameIn  == {e \in InSingles \cup InDirSingles :
+               /\ e.act \in {"TRANSFER", "TARBALL"} /\ e.sp # "m"
+               /\ e.sk \in {"rel", "client"} /\ e.tk \in {"rel", "task", "client", "omit", "empty"}}
+SameOut == {e \in OutSingles \cup OutDirSingles :
+               /\ e.act = "TRANSFER" /\ e.sp # "m"
+               /\ e.sk \in {"rel", "task"} /\ e.tk \in {"rel", "client", "omit", "empty"}}
+SameCases ==
+       {[Case(<<d>>, <<>>, Ok1) EXCEPT !.cs = "same"] : d \in SameIn}
+  \cup {[Case(<<>>, <<d>>, Ok1) EXCEPT !.cs = "same"] : d \in SameOut}
 
 PairCases ==
        {Case(<<d1, d2>>, <<>>, Ok1) : d1 \in CoreIn, d2 \in CoreIn}
@@ -341,8 +361,11 @@ HostileCases ==
 
 InitKeys == {<<l, p>> : l \in NonTask, p \in {"a", "s/a", "ba", "h h"}}
 InitFs   == [k \in InitKeys |-> [c |-> k[1] \o ":" \o k[2], i |-> "init:" \o k[1] \o ":" \o k[2]]]
-InitFsOf(c) == [k \in InitKeys \cup StaleKeys(c) |->
+DecoyKeys(c) == IF c.cs = "differs" THEN {<<"cwd", p>> : p \in {"a", "s/a", "ba"}} ELSE {}
+InitFsOf(c) == [k \in InitKeys \cup StaleKeys(c) \cup DecoyKeys(c) |->
                   IF k \in InitKeys THEN InitFs[k]
+                  ELSE IF k \in DecoyKeys(c)
+                  THEN [c |-> "decoy:" \o k[2], i |-> "decoy:" \o k[2]]
                   ELSE [c |-> "stale:" \o k[1] \o ":" \o k[2], i |-> "stale:" \o k[1] \o ":" \o k[2]]]
 ExecFiles(t) == IF t = "A" THEN {"o", "s/o"} ELSE {"bo"}
 
@@ -370,13 +393,14 @@ DevCases ==
                                            \cup Rec({"dict"}, CLM, {"pilot"}, {"a"}, {"relcwddir"}, {"b"})}
   \cup {Case(<<>>, <<d>>, x) : d \in CoreOut, x \in Outcomes}
   \cup HostileCases
+  \cup {c \in SameCases : c.din # <<>> => c.din[1].form \in {"bare", "gt"}}
 
 Cases ==
   CASE Scope = "single" -> {c \in SingleCases : WellFormed(c)}
     [] Scope = "pairs"  -> {c \in PairCases   : WellFormed(c)}
     [] Scope = "dev"    -> {c \in DevCases : WellFormed(c)}
     [] Scope = "hostile" -> {c \in HostileCases : WellFormed(c)}
-    [] Scope = "all"    -> {c \in SingleCases \cup PairCases \cup HostileCases : WellFormed(c)}
+    [] Scope = "all"    -> {c \in SingleCases \cup SameCases \cup PairCases \cup HostileCases : WellFormed(c)}
     [] OTHER            -> {}
 
 (* ------------------------------------------------------------------------ *)
@@ -391,8 +415,11 @@ RawOf(t) == IF t = "A" THEN [din |-> inp.din, dout |-> inp.dout] ELSE [din |-> B
 \* what the agent input stager makes of the directive: a relative target is
 \* tested for "exists and is a folder" in the component's working directory
 \* instead of the task sandbox, and then gets the source's basename appended
-NormCode(d) ==
-  IF DevDirTestInCwd /\ d.tk = "relcwddir" /\ d.act \in CLM
+CwdK(x, isdefault) == IF x.k = "client" \/ (x.k = "rel" /\ isdefault) THEN [x EXCEPT !.k = "cwd"] ELSE x
+NormCode(d, dir) ==
+  IF DevClientIsCwd /\ inp.cs = "differs" /\ d.act \in {"TRANSFER", "TARBALL"}
+  THEN [Norm(d) EXCEPT !.s = CwdK(@, dir = "in"), !.t = CwdK(@, dir = "out")]
+  ELSE IF DevDirTestInCwd /\ d.tk = "relcwddir" /\ d.act \in CLM
   THEN [Norm(d) EXCEPT !.t = [k |-> "rel", p |-> d.tp \o "/" \o Base(d.sp)]]
   ELSE IF DevSlashDropped /\ d.tp = "d/"      \* the target becomes a plain file named like the directory
   THEN [Norm(d) EXCEPT !.t.p = "d"]
@@ -427,8 +454,8 @@ ForBoth(F(_, _)) ==
 
 Expand ==
   /\ stage = "new" /\ stage' = "expanded"
-  /\ E' = [t \in Tasks |-> [din  |-> [j \in 1 .. Len(RawOf(t).din) |-> NormCode(RawOf(t).din[j])],
-                           dout |-> [j \in 1 .. Len(RawOf(t).dout) |-> NormCode(RawOf(t).dout[j])]]]
+  /\ E' = [t \in Tasks |-> [din  |-> [j \in 1 .. Len(RawOf(t).din) |-> NormCode(RawOf(t).din[j], "in")],
+                           dout |-> [j \in 1 .. Len(RawOf(t).dout) |-> NormCode(RawOf(t).dout[j], "out")]]]
   /\ UNCHANGED <<inp, fs, nx, log, tar, st, passedIn, snap>>
 
 TIn ==
@@ -492,6 +519,10 @@ DocTgt(t, dir, j) ==
   LET n == Norm(IF dir = "in" THEN RawOf(t).din[j] ELSE RawOf(t).dout[j]) IN
   TgtKey(SideOf(dir, n.act), n, t)
 
+DocSrc(t, dir, j) ==
+  LET n == Norm(IF dir = "in" THEN RawOf(t).din[j] ELSE RawOf(t).dout[j]) IN
+  SrcKey(SideOf(dir, n.act), n, t)
+
 TypeOK ==
   /\ stage \in {"new", "expanded", "tin", "ain", "exec", "aout", "tout"}
   /\ \A t \in Tasks : st[t] \in {"ok", "failed", "done", "canceled"}
@@ -499,10 +530,12 @@ TypeOK ==
 
 \* Placed: the named place holds the content the source had
 InvPlaced ==
-  \A n \in 1 .. Len(log) :
-     (Carried(log, n) /\ ~ConsumedIn(log, n)) =>
-        LET k == DocTgt(log[n].t, log[n].dir, log[n].j) IN
-        Has(fs, k) /\ fs[k].c = log[n].c
+  /\ \A n \in 1 .. Len(log) :
+        (Carried(log, n) /\ ~ConsumedIn(log, n)) =>
+           LET k == DocTgt(log[n].t, log[n].dir, log[n].j) IN
+           Has(fs, k) /\ fs[k].c = log[n].c
+  \* ... and it was the NAMED data: taken from where the documentation says
+  /\ \A n \in 1 .. Len(log) : log[n].sk = DocSrc(log[n].t, log[n].dir, log[n].j)
 
 \* ... for every directive of a task that passed (a skipped directive is not carried out)
 InvCarried ==
